@@ -10,7 +10,10 @@ tokens, every iteration order) over a virtual clock (Instant::now returns non-de
                                   the call, load figures copied, Unhealthy -> Ready, every other status kept, other workers untouched
   RoundRobinPlacement::place      picks workers[counter mod n] of the list it is given (None iff the list is empty), counter + 1
   LeastLoadedPlacement::place     picks a worker OF THE LIST with minimal running/cores ratio (ties: fewer pipelines, then first)
-The strategies only ever see the list their caller filtered with is_available, so a placed pipeline lands on an available worker.
+  Coordinator::plan_deploy_group  (props/c33plan.py) hands the strategy exactly the available workers, plans every task on an available worker
+                                  and honours an available pinned worker
+The strategies return a member of the list they are given and plan_deploy_group gives them the available workers only, so a planned pipeline
+lands on an available worker.
 """
 import itertools
 import re
@@ -380,7 +383,7 @@ def run(ctx):
     ctx.bounds = {'tables': 'worker tables of 0..%d workers with symbolic id, status (all four), load figures and heartbeat time, iterated in every order' % nmax,
                   'clock': 'Instant::now / elapsed return non-decreasing symbolic readings below 2^60 ns; the timeout is symbolic',
                   'placement lists': '0..%d workers; least-loaded on the exact domain running < 2^%d, cores < 2^%d (IEEE comparison of the rounded quotients = comparison of the rationals there)' % ((nmax + 1,) + ((14, 8) if ctx.tier == 'thorough' else (10, 6))),
-                  'outside': 'the selection code inside Coordinator::plan_deploy_group / deploy_group / migrations (affinity to a pinned worker, filtering with is_available before calling the strategy): large functions over several HashMaps, uuid, tracing spans and HTTP planning; deregistration; per-pipeline metrics in heartbeats'}
+                  'outside': 'the selection code inside the async deploy_group (a duplicate of plan_deploy_group that only tests call), migrations, failover and drain (candidate filters `is_available && id != failed worker`): coroutines over several HashMaps and HTTP; deregistration; per-pipeline metrics in heartbeats'}
     ctx.assumptions += ['tracing macros are cut at the level check', 'HashMap<WorkerId, WorkerNode> as an entry list with distinct keys', 'heartbeats carry no per-pipeline metrics', 'Duration as a 64-bit nanosecond count']
     tasks = [('is_available',)]
     for n in range(0, nmax + 1):
@@ -388,9 +391,28 @@ def run(ctx):
             tasks.append(('sweep', n, order)); tasks.append(('heartbeat', n, order))
     for n in range(0, nmax + 2):
         tasks.append(('round_robin', n)); tasks.append(('least_loaded', n, ctx.tier))
+    from props import c33plan
+    ptasks = c33plan.tasks(ctx.tier)
+    ctx.bounds['plan_deploy_group'] = 'Coordinator::plan_deploy_group on worker tables of 1..%d workers (symbolic status, load, ids; two iteration orders), one pipeline, affinity absent or naming any id; the strategy is cut and returns an arbitrary member of the candidate list' % (3 if ctx.tier == 'thorough' else 2)
     with ProcessPoolExecutor(max_workers=14, mp_context=mp.get_context('fork')) as pool:
         res = list(pool.map(_worker, tasks))
+        pres = list(pool.map(c33plan._worker, ptasks))
     binp = None; seen = set()
+    for r in pres:
+        tgt = 'Coordinator::plan_deploy_group'; cls = ' '.join(r['spec'][1:])
+        if r.get('error'):
+            ctx.inconclusive.append('%s (%s): %s' % (tgt, cls, r['error'])); continue
+        for why in sorted(set(r['inconclusive'])): ctx.inconclusive.append('%s (%s): %s' % (tgt, cls, why))
+        ctx.queries += r['queries']; ctx.solver_s += r['solver_s']
+        ctx.add_obligations(tgt, r['verdicts'], cls=cls)
+        ctx.samples.append({'class': tgt + ' ' + cls, 'paths': r['paths']})
+        for v in r['verdicts']:
+            if v['status'] != 'violated': continue
+            key = '%s:%s' % (tgt, v['name'].split(':')[0])
+            if key in seen: continue
+            seen.add(key)
+            if binp is None: binp = replay.build('cl')
+            ctx.findings.append(Finding(key, '%s %s: %s (witness %s)' % (tgt, cls, v['name'], v.get('witness')), [binp, 'workers', 'plan'], v.get('witness') or {}))
     names = {'is_available': 'WorkerNode::is_available', 'sweep': 'health_sweep', 'heartbeat': 'Coordinator::heartbeat', 'round_robin': 'RoundRobinPlacement::place', 'least_loaded': 'LeastLoadedPlacement::place'}
     for r in res:
         tgt = names[r['spec'][0]]; cls = ' '.join(r['spec'][1:]) or '-'
